@@ -1,3 +1,4 @@
+pub mod c04;
 pub mod c06;
 pub mod c07;
 pub mod c08;
@@ -6,9 +7,11 @@ pub mod c10;
 pub mod c11;
 pub mod c12;
 pub mod c13;
+pub mod c14;
 pub mod c15;
 pub mod c16;
 pub mod c17;
+pub mod c18;
 pub mod tseq;
 
 /// replayers for families other than table sequences
